@@ -18,7 +18,7 @@ RULE = ('generated module trees (nesting <=4, Sequential/ModuleList/ModuleDict/c
         'non-trivial: >=1 registered and >=1 eligible-type leaf excluded (skip/frozen/shared duplicate/non-leaf); distinct = hash(tree repr, patterns)')
 ASSUMPTIONS = ['a module is a leaf iff it has no child modules',
                'hook bookkeeping is read from torch\'s _forward_pre_hooks / _backward_hooks dictionaries']
-REQUIRED = ['tree_checks', 'hook_checks', 'preconditioner_checks', 'neox_checks']
+REQUIRED = ['tree_checks', 'hook_checks', 'preconditioner_checks', 'second_preconditioner_checks', 'neox_checks']
 
 
 def hook_counts(model):
@@ -56,23 +56,36 @@ def check_tree(rng, res, idx):
             return res.violation(f'layer registered under {n!r} which does not name that module', case)
         if layer.module.module is not m:
             return res.violation(f'KFAC layer {n!r} wraps a different module', case)
-    # through the public preconditioner: names + hooks + parameters
-    before = hook_counts(model)
-    res.count('preconditioner_checks')
-    with warnings.catch_warnings():
-        warnings.simplefilter('ignore')
-        p = KFACPreconditioner(model, skip_layers=list(pats), compute_method=rng.choice(['eigen', 'inverse']), compute_eigenvalue_outer_product=False)
-    keys = list(p.state_dict()['layers'].keys())
-    if sorted(keys) != sorted(exp_names):
-        return res.violation(f'KFACPreconditioner holds layers {sorted(keys)}; expected {sorted(exp_names)}', case)
-    after = hook_counts(model)
-    for m in model.modules():
-        res.count('hook_checks')
-        b, a = before[id(m)], after[id(m)]
-        want = (b[0] + 1, b[1] + 1, b[2]) if id(m) in exp_ids else b
-        if a != want:
-            nm = [n for n, mm in model.named_modules() if mm is m][0]
-            return res.violation(f'module {nm!r} ({type(m).__name__}) has hooks (fwd_pre,bwd,fwd)={a}, expected {want}', case)
+    # through the public preconditioner: names + hooks + parameters; sometimes a second preconditioner is then built on the
+    # same tree (re-created after a change of settings, possibly with other skip patterns): the same must hold for it
+    rounds = [(pats, exp_names, exp_ids)]
+    if rng.random() < 0.4:
+        pats2 = pats if rng.random() < 0.5 else gen.random_patterns(rng, model)
+        exp2 = gen.expected_registration(model, pats2)
+        rounds.append((pats2, [n for n, _ in exp2], {id(m) for _, m in exp2}))
+        case['second_patterns'] = pats2
+    keep = []
+    for ri, (pats_i, names_i, ids_i) in enumerate(rounds):
+        before = hook_counts(model)
+        res.count('preconditioner_checks')
+        if ri:
+            res.count('second_preconditioner_checks')
+        with warnings.catch_warnings():
+            warnings.simplefilter('ignore')
+            p = KFACPreconditioner(model, skip_layers=list(pats_i), compute_method=rng.choice(['eigen', 'inverse']), compute_eigenvalue_outer_product=False)
+        keep.append(p)
+        which = 'KFACPreconditioner' if ri == 0 else 'a second KFACPreconditioner on the same tree'
+        keys = list(p.state_dict()['layers'].keys())
+        if sorted(keys) != sorted(names_i):
+            return res.violation(f'{which} holds layers {sorted(keys)}; expected {sorted(names_i)}', case)
+        after = hook_counts(model)
+        for m in model.modules():
+            res.count('hook_checks')
+            b, a = before[id(m)], after[id(m)]
+            want = (b[0] + 1, b[1] + 1, b[2]) if id(m) in ids_i else b
+            if a != want:
+                nm = [n for n, mm in model.named_modules() if mm is m][0]
+                return res.violation(f'{which}: module {nm!r} ({type(m).__name__}) has hooks (fwd_pre,bwd,fwd)={a}, expected {want}', case)
     for n, q in model.named_parameters():
         v, rg = params_before[n]
         if q.requires_grad != rg or not torch.equal(q.detach(), v):
